@@ -160,6 +160,7 @@ static int clip_op(const char *op, char *args) {
     cl->GotXCutTextUTF8 = a[1] ? rc_got_cut_utf8 : NULL;
     cl->sock = sv[1];
     cl->canHandleNewFBSize = FALSE;
+    cl->readTimeout = 5;     /* a message that never completes makes the client give up instead of spinning */
     c->rc = cl;
     write(sv[1], "", 0);
     next_id = a[0]; next_vo = 0;
